@@ -13,6 +13,8 @@ fn glide_time(fs: f32) -> BoxedStrategy<f32> {
         2 => Just(0.0f32),
         3 => (0.0f64..2.0).prop_map(move |k| (k / fsd) as f32),
         3 => (0.0f64..6.0).prop_map(move |k| (k / fsd) as f32),
+        // exactly k samples, evaluated in f32, and its neighbours (k = 2: the boundary of the fastest setting)
+        1 => (prop_oneof![3 => Just(2u8), 2 => 1u8..=4, 1 => Just(8u8)], -1i32..=1).prop_map(move |(k, u)| f32::from_bits(((k as f32 / fs).to_bits() as i32 + u) as u32)),
         2 => 0.0f32..0.1,
         2 => 0.0f32..1.0,
         1 => 0.0f32..=10.0,
@@ -64,8 +66,21 @@ fn base_delta() -> BoxedStrategy<(f32, f32)> {
     (base, delta).boxed()
 }
 
+/// steps between values of huge magnitude, including steps across zero whose size exceeds f32::MAX ("all step sizes/offsets")
+fn huge_step() -> BoxedStrategy<(f32, f32)> {
+    let big = || prop_oneof![Just(3e38f32), Just(f32::MAX), Just(2e38f32), Just(1e30f32), Just(1e19f32), 1e37f32..3.4e38];
+    let any_sign = move || (big(), any::<bool>()).prop_map(|(v, neg)| if neg { -v } else { v });
+    prop_oneof![
+        2 => (any_sign(), any_sign()),
+        1 => (any_sign(), prop_oneof![Just(0.0f32), -10.0f32..10.0]),
+        1 => (prop_oneof![Just(0.0f32), -10.0f32..10.0], any_sign()),
+    ]
+    .prop_map(|(a, b)| if a == b { (a, -b) } else { (a, b) })
+    .boxed()
+}
+
 pub fn c14_case(max_n: f64) -> BoxedStrategy<C14Case> {
-    let step = (sample_rate(48_000.0), (100.0f64.ln()..max_n.ln()), base_delta(), 0u32..20).prop_map(move |(fs, ln_n, (base, delta), sel)| {
+    let step = (sample_rate(48_000.0), (100.0f64.ln()..max_n.ln()), base_delta(), 0u32..20, proptest::option::weighted(0.08, huge_step())).prop_map(move |(fs, ln_n, (base, delta), sel, huge)| {
         let n = ln_n.exp();
         let mut t = (n / fs as f64) as f32;
         if sel == 0 {
@@ -76,14 +91,20 @@ pub fn c14_case(max_n: f64) -> BoxedStrategy<C14Case> {
         if (t as f64) * (fs as f64) < 100.0 {
             t = (100.5 / fs as f64) as f32;
         }
+        let (base, target) = match huge {
+            Some((b, x)) => (b, Some(x)),
+            None => (base, None),
+        };
         let base = if (t.min(10.0) as f64) * (fs as f64) > 60_000.0 { 0.0 } else { base };
-        C14Case::Step { fs, t, base, delta }
+        let target = target.map(|x| if x == base { 3e38 } else { x });
+        C14Case::Step { fs, t, base, delta, target }
     });
-    let fast = (sample_rate(48_000.0), prop_oneof![1 => Just(0.0f64), 4 => 0.0f64..0.999], base_delta()).prop_map(|(fs, u, (base, delta))| C14Case::Fast {
+    let fast = (sample_rate(48_000.0), prop_oneof![1 => Just(0.0f64), 4 => 0.0f64..0.999], base_delta(), proptest::option::weighted(0.08, huge_step())).prop_map(|(fs, u, (base, delta), huge)| C14Case::Fast {
         fs,
         t: (u * 2.0 / fs as f64) as f32,
-        base,
+        base: huge.map(|h| h.0).unwrap_or(base),
         delta,
+        target: huge.map(|h| h.1),
     });
     let long = (sample_rate(48_000.0), prop_oneof![3 => 10.0001f32..1000.0, 1 => Just(1000.0f32), 1 => Just(10.5f32)], base_delta(), 200u32..5000)
         .prop_map(|(fs, t, (_, delta), samples)| C14Case::Long { fs, t, delta, samples });
@@ -151,7 +172,7 @@ pub fn c13(quick: bool, seed: u64) -> Outcome {
 
 pub fn c14(quick: bool, seed: u64) -> Outcome {
     let mut o = Outcome::new(
-        "proptest cases of four kinds: Step (fresh processor, set_time(t) with t*fs log-uniform in [100, Nmax], settle at base in {0, U[-1,1], U[-10,10]}, step by {1, +-U[0.01,10]}: coverage at sample round(t*fs/10) in [0.40,0.55] and at ceil(t*fs) >= 0.995; 1 in 20 with t beyond the 10 s clamp), Fast (t = u*2/fs incl. 0: within 0.5% after 8 samples), Long (t in (10,1000]: sample-for-sample equal to t = 10), History (1..40 set_time calls: absolute times and creep progressions with steps inside/outside the 0.05 s dead band, zeros processed in between, then a step: the response must match, within 2 E_n at every sample, a fresh processor at one of the times the statement allows to be in effect). non-trivial = Step whose resolution allowance is < 0.1% of the step, every Fast/Long case, History with >= 2 in-band calls followed by an out-of-band one; distinct by hash",
+        "proptest cases of four kinds: Step (fresh processor, set_time(t) with t*fs log-uniform in [100, Nmax], settle at base in {0, U[-1,1], U[-10,10]}, step by {1, +-U[0.01,10]} - or, in 8% of the Step and Fast cases, a step between huge values of either sign (+-1e19..+-f32::MAX, also larger than f32::MAX across zero) -: coverage at sample round(t*fs/10) in [0.40,0.55] and at ceil(t*fs) >= 0.995; 1 in 20 with t beyond the 10 s clamp), Fast (t = u*2/fs incl. 0: within 0.5% after 8 samples), Long (t in (10,1000]: sample-for-sample equal to t = 10), History (1..40 set_time calls: absolute times and creep progressions with steps inside/outside the 0.05 s dead band, zeros processed in between, then a step: the response must match, within 2 E_n at every sample, a fresh processor at one of the times the statement allows to be in effect). non-trivial = Step whose resolution allowance is < 0.1% of the step, every Fast/Long case, History with >= 2 in-band calls followed by an out-of-band one; distinct by hash",
     );
     o.assumptions.push("an in-band set_time call may be ignored or honoured (the statement permits ignoring); a fresh processor responds like time 0".into());
     let (cases, max_n) = if quick { (150_000, 60_000.0) } else { (400_000, 480_000.0) };
